@@ -16,6 +16,7 @@ RULE = ("transactions generated from a grammar with the reference serialiser: di
 ASSUMPTIONS = ["vf/ref/tx_ref.py is the wire format (validated on the BIP143 example transactions and the genesis coinbase in the selftest)",
                "all-empty-witness segwit encodings and zero-input transactions are not well-formed and never generated"]
 OBLIGATIONS = {
+    "history_sequences": "operation sequences (non-initial process states) explored",
     "empty_witness_mixed": "a segwit tx with an empty stack for one input and a non-empty one for another",
     "witness_item_ge_253": "a witness item of >= 253 bytes", "script_ge_253": "a script of >= 253 bytes",
     "count_ge_253": "an input or output count >= 253", "trailing_data": "trailing bytes after the transaction",
@@ -138,7 +139,21 @@ CASES = {"tx": chk_tx, "compact": chk_compact}
 
 
 def run_case(kind, case):
+    if kind == "seq":
+        from vf import seqexplore
+        return seqexplore.replay(run_case, case)
     return CASES[kind](case)
+
+
+def seq_ops(job):
+    seed = job["seed"]
+    d0 = {k: v[0] for k, v in dims("segwit").items()}
+    l0 = {k: v[0] for k, v in dims("legacy").items()}
+    ops = [("tx", {"seed": seed, "a": dict(d0, wit0=[105], witrest=[])}), ("tx", {"seed": seed, "a": dict(l0, ss0=105, spk0=105)}),
+           ("tx", {"seed": seed, "a": dict(d0, wit0=[300, 1], witrest=[253], trailing=1)}), ("tx", {"seed": seed, "a": dict(l0, ss0=300, n_out=3, trailing=2)}),
+           ("tx", {"seed": seed, "a": dict(d0, wit0=[], witrest=[1, 0])}), ("tx", {"seed": seed, "a": dict(l0, n_in=3, version=0)}),
+           ("compact", {"n": 105, "tail": ""}), ("compact", {"n": 300, "tail": "00"}), ("compact", {"n": 2 ** 64, "tail": ""})]
+    return ops
 
 
 def jobs(tier, seed):
@@ -149,10 +164,15 @@ def jobs(tier, seed):
     for sh in range(4):
         js.append({"name": f"compact/{sh}", "part": "compact", "shard": [sh, 4], "weight": 3})
     js.append({"name": "corpus", "part": "corpus"})
+    from vf.runner import seq_jobs
+    js += seq_jobs(3, weight=3)
     return js
 
 
 def run_job(job):
+    if job["part"] == "seq":
+        from vf.runner import run_seq_job
+        return run_seq_job(job, seq_ops(job), run_case)
     acc = Acc(job)
     seed = job["seed"]
     if job["part"] == "tx":
